@@ -373,7 +373,7 @@ impl Clone for VMThread {
             (target as int) < self.thread.code().len() ==> r.thread.ip() == target,                            //@ob C08.ctl.thread_fork.starts_at_target
             (target as int) >= self.thread.code().len() ==> r.thread.ip() == self.thread.ip(),
             r.state.stack == self.state.stack, r.state.memory == self.state.memory, r.state.recorded_values == self.state.recorded_values,      //@ob C08.ctl.thread_fork.same_state
-            r.gas_usage == self.gas_usage,            //@ob C03.ctl.thread_fork.inherits_gas
+            r.gas_usage == self.gas_usage,            //@ob C03.ctl.thread_fork.inherits_gas C17.ctl.thread_fork.inherits_gas_so_exhaustion_is_reported
 //@end
 }
 
@@ -671,7 +671,7 @@ pub open spec fn forked_at(t: VMThread, before: &VM, target: u32) -> bool {
 //@ret r
 //@spec
         ensures
-            r is Ok ==> final(vm).killed(),                                                     //@ob C08.ctl.stop.ok_kills_thread
+            r is Ok ==> final(vm).killed(),                                                     //@ob C08.ctl.stop.ok_kills_thread C05.ctl.stop.ok_kills_thread_so_dead_code_cannot_report_slots
             r is Ok ==> final(vm).ip() == old(vm).ip() && final(vm).code() == old(vm).code() && final(vm).queued() == old(vm).queued() && final(vm).log() == old(vm).log() && final(vm).config == old(vm).config,      //@ob C08.ctl.stop.nothing_else_moves
             r is Ok && *final(vm) == (VM { current_thread_killed: true, ..*old(vm) }),             //@ob C08.ctl.stop.only_the_flag
 //@end
@@ -685,7 +685,7 @@ pub open spec fn forked_at(t: VMThread, before: &VM, target: u32) -> bool {
 //@ret r
 //@spec
         ensures
-            r is Ok ==> final(vm).killed(),                                                     //@ob C08.ctl.invalid.ok_kills_thread
+            r is Ok ==> final(vm).killed(),                                                     //@ob C08.ctl.invalid.ok_kills_thread C05.ctl.invalid.ok_kills_thread_so_dead_code_cannot_report_slots
             r is Ok ==> final(vm).ip() == old(vm).ip() && final(vm).code() == old(vm).code() && final(vm).queued() == old(vm).queued() && final(vm).log() == old(vm).log() && final(vm).config == old(vm).config,      //@ob C08.ctl.invalid.nothing_else_moves
             r is Ok && *final(vm) == (VM { current_thread_killed: true, ..*old(vm) }),             //@ob C08.ctl.invalid.only_the_flag
 //@end
@@ -699,7 +699,7 @@ pub open spec fn forked_at(t: VMThread, before: &VM, target: u32) -> bool {
 //@ret r
 //@spec
         ensures
-            r is Ok ==> final(vm).killed(),                                                     //@ob C08.ctl.return.ok_kills_thread
+            r is Ok ==> final(vm).killed(),                                                     //@ob C08.ctl.return.ok_kills_thread C05.ctl.return.ok_kills_thread_so_dead_code_cannot_report_slots
             r is Ok ==> final(vm).ip() == old(vm).ip() && final(vm).code() == old(vm).code() && final(vm).queued() == old(vm).queued() && final(vm).log() == old(vm).log() && final(vm).config == old(vm).config,      //@ob C08.ctl.return.nothing_else_moves
             old(vm).has_thread() && old(vm).stack().len() >= 2 ==> r is Ok,                          //@ob C08.ctl.return.ok_with_operands
             r is Ok ==> old(vm).has_thread() && old(vm).stack().len() >= 2 && final(vm).stack() == old(vm).stack().drop_last().drop_last(),      //@ob C07.ctl.return.pops_operands
@@ -715,7 +715,7 @@ pub open spec fn forked_at(t: VMThread, before: &VM, target: u32) -> bool {
 //@ret r
 //@spec
         ensures
-            r is Ok ==> final(vm).killed(),                                                     //@ob C08.ctl.revert.ok_kills_thread
+            r is Ok ==> final(vm).killed(),                                                     //@ob C08.ctl.revert.ok_kills_thread C05.ctl.revert.ok_kills_thread_so_dead_code_cannot_report_slots
             r is Ok ==> final(vm).ip() == old(vm).ip() && final(vm).code() == old(vm).code() && final(vm).queued() == old(vm).queued() && final(vm).log() == old(vm).log() && final(vm).config == old(vm).config,      //@ob C08.ctl.revert.nothing_else_moves
             old(vm).has_thread() && old(vm).stack().len() >= 2 ==> r is Ok,                          //@ob C08.ctl.revert.ok_with_operands
             r is Ok ==> old(vm).has_thread() && old(vm).stack().len() >= 2 && final(vm).stack() == old(vm).stack().drop_last().drop_last(),      //@ob C07.ctl.revert.pops_operands
@@ -915,7 +915,7 @@ broadcast use super::vm::lemma_handle_resolved;
 //@ret r
 //@spec
         ensures
-            r is Ok ==> final(vm).killed(),                                                     //@ob C08.ctl.selfdestruct.ok_kills_thread
+            r is Ok ==> final(vm).killed(),                                                     //@ob C08.ctl.selfdestruct.ok_kills_thread C05.ctl.selfdestruct.ok_kills_thread_so_dead_code_cannot_report_slots
             r is Ok ==> final(vm).ip() == old(vm).ip() && final(vm).code() == old(vm).code() && final(vm).queued() == old(vm).queued() && final(vm).log() == old(vm).log() && final(vm).config == old(vm).config,      //@ob C08.ctl.selfdestruct.nothing_else_moves
             old(vm).has_thread() && old(vm).stack().len() >= 1 ==> r is Ok,                          //@ob C08.ctl.selfdestruct.ok_with_operands
             r is Ok ==> old(vm).has_thread() && old(vm).stack().len() >= 1 && final(vm).stack() == old(vm).stack().drop_last(),      //@ob C07.ctl.selfdestruct.pops_operands
